@@ -65,6 +65,10 @@ def mk_field(base, i):
         return mk_phi([mk_field(a, i) for a in base[1]])
     if base[0] == "mut" and len(base) > 3 and base[3] and isinstance(base[3][0], tuple) and base[3][0][0] == "f" and base[3][0][1] != i:
         return mk_field(base[1], i)   # the call changed another field of the object
+    if base[0] == "mut" and len(base) > 3 and len(base[3]) > 1 and isinstance(base[3][0], tuple) and base[3][0] == ("f", i):
+        # the call changed something deeper inside this field (`self.a.b.next()` then `self.a.c`): step into the
+        # field and keep the rest of the changed path, so that a read of a sibling further down sees through it
+        return ("mut", mk_field(base[1], i), base[2], tuple(base[3][1:])) + tuple(base[4:])
     if base[0] == "update" and base[2] and isinstance(base[2][0], tuple) and base[2][0][0] == "f" and base[2][0][1] != i:
         return mk_field(base[1], i)   # another field was assigned
     return ("field", base, i)
